@@ -643,6 +643,10 @@ htp_status_t htp_mpart_part_handle_data(htp_multipart_part_t *part, const unsign
                 if (data[len - 1] == LF) len--;
             }
 
+            // If the line was assembled from pieces, it may be kept as the pending
+            // header line below: trim the line endings from the string as well.
+            if (line != NULL) bstr_adjust_len(line, len);
+
             // Is it an empty line?
             if (len == 0) {
                 // Empty line; process headers and switch to data mode.
